@@ -7,7 +7,7 @@ from vlib.runner import Search
 ID = 'C18'
 RULE = ('Hypothesis-generated timetables of 1-6 entries (durations on the dyadic grid incl. 0 with positive total, '
         'repeated states), cyclical / non-cyclical / default; objects registered before the run (default action or '
-        'per-object override, duplicates incl. with a different override) and register/unregister/re-register '
+        'per-object override, duplicates incl. with a different override); states may be None or 0; the list handed to the constructor is edited by the caller afterwards; the scheduler may also be created between two simulate() calls and register/unregister/re-register '
         'calls issued from events at generated times with distinct generated priorities (below and above the '
         'scheduler\'s own transition priority); the scheduler optionally created inside an event at t0 > 0 (its timetable then starts at t0); every action also reads current_state and must see the new state; horizons up to 50 periods; split runs; all tie-break policies. '
         'Oracle: independent timetable evaluator (prefix sums, modulo the period, last state forever): '
@@ -25,7 +25,7 @@ OBJS = ['o1', 'o2', 'o3']
 
 
 def cases(max_timed, horizons):
-    def build(tt, cyc, pre, timed, T, split, pol, seed, late):
+    def build(tt, cyc, pre, timed, T, split, pol, seed, late, between):
         tt = [list(x) for x in tt]
         if sum(d for d, _ in tt) == 0:
             tt[0][0] = 1
@@ -37,12 +37,16 @@ def cases(max_timed, horizons):
             used[(t, p)] = 1
             out.append([t, p, k, o, ov])
         Ts = [T] if not split else [T / 4, 3 * T / 4]
+        if between and split:
+            late = T / 4
+        else:
+            between = False
         if late:
             # registration calls only make sense once the scheduler exists
-            out = [x for x in out if x[0] > late or (x[0] == late and x[1] < 13)]
+            out = [x for x in out if x[0] > late or (x[0] == late and x[1] < 13 and not between)]
         return {'timetable': tt, 'cyclical': cyc, 'pre': [list(x) for x in pre], 'timed': out, 'T': Ts,
-                'tb': [pol, seed], 'late': late}
-    entry = st.tuples(st.sampled_from(G), st.sampled_from(['a', 'b', 'c']))
+                'tb': [pol, seed], 'late': late, 'between': between}
+    entry = st.tuples(st.sampled_from(G), st.sampled_from(['a', 'b', 'c', None, 0]))
     pre = st.lists(st.tuples(st.sampled_from(OBJS), st.booleans()), max_size=4)
     timed = st.lists(st.tuples(st.sampled_from([0, 0.5, 1, 1.75, 2, 3, 4.5, 7, 10]),
                                st.sampled_from([2, 3, 5, 8, 10, 11.5, 12]),
@@ -50,11 +54,12 @@ def cases(max_timed, horizons):
                      max_size=max_timed)
     return st.builds(build, st.lists(entry, min_size=1, max_size=6), st.sampled_from([True, False, None]), pre, timed,
                      st.sampled_from(horizons), st.booleans(), st.sampled_from(['random', 'fifo', 'lifo', 'const']),
-                     st.integers(0, 10 ** 6), st.sampled_from([None, None, None, 0.5, 1.75, 2.5]))
+                     st.integers(0, 10 ** 6), st.sampled_from([None, None, None, 0.5, 1.75, 2.5]),
+                     st.sampled_from([False, False, False, True]))
 
 
 def valid(case):
-    return (len(case.get('tb', [])) == 2 and bool(case['T']) and bool(case['timetable'])
+    return (len(case.get('tb', [])) == 2 and bool(case['T']) and all(t > 0 for t in case['T']) and bool(case['timetable'])
             and (sum(d for d, _ in case['timetable']) > 0))
 
 
@@ -78,7 +83,7 @@ def run_case(case, ctx):
     if len(case['T']) > 1:
         classes.append('split-run')
     if case.get('late'):
-        classes.append('scheduler-created-while-running')
+        classes.append('scheduler-created-between-runs' if case.get('between') else 'scheduler-created-while-running')
     sts = [s for _, s in case['timetable']]
     if any(a == b for a, b in zip(sts, sts[1:] + sts[:1])):
         classes.append('same-state-twice-in-a-row')
